@@ -151,7 +151,7 @@ class YModule:
 
 
 class YFiber:
-    __slots__ = ("closure", "state", "caller", "frames", "thread", "wake", "inbox", "call_arity")
+    __slots__ = ("closure", "state", "caller", "frames", "thread", "wake", "inbox", "call_arity", "dead")
 
     def __init__(self, closure):
         self.closure = closure
@@ -162,6 +162,7 @@ class YFiber:
         self.wake = threading.Semaphore(0)
         self.inbox = None
         self.call_arity = len(closure.fn.params) if closure is not None else 0
+        self.dead = False
 
 
 class Thrown(Exception):
@@ -751,16 +752,32 @@ class Interp:
             root.frames = []
         return ("ok",)
 
-    def kill_fibers(self):
+    def kill_fibers(self, everything=False):
+        """end of a run: fibers on the aborted call chain die with it (their threads are released and the fiber is
+        marked dead: the model does not predict what calling one of them later does); a fiber that is cleanly
+        suspended stays parked, so that a later run on this interpreter can resume it"""
         self.terminated = True
+        keep, victims = [], []
         for fb in self.all_fibers:
-            if fb.thread is not None and fb.thread is not threading.current_thread() and fb.thread.is_alive():
-                fb.wake.release()
-        for fb in self.all_fibers:
-            if fb.thread is not None and fb.thread is not threading.current_thread():
-                fb.thread.join(timeout=5)
-        self.all_fibers = []
+            alive = fb.thread is not None and fb.thread is not threading.current_thread() and fb.thread.is_alive()
+            if not alive:
+                if fb.state != "finished":
+                    fb.dead = True
+                continue
+            if not everything and fb.state == "suspended" and fb.caller is None:
+                keep.append(fb)
+            else:
+                victims.append(fb)
+        for fb in victims:
+            fb.dead = True
+            fb.wake.release()
+        for fb in victims:
+            fb.thread.join(timeout=5)
+        self.all_fibers = keep
         self.terminated = False
+
+    def shutdown(self):
+        self.kill_fibers(everything=True)
 
     def interpret(self, src):
         """one snippet on this interpreter (vm::interpret). Returns ('ok',) |
@@ -1523,7 +1540,7 @@ class Interp:
         self.fiber = target
         target.inbox = payload
         if target.thread is None:
-            target.thread = threading.Thread(target=self.fiber_main, args=(target,))
+            target.thread = threading.Thread(target=self.fiber_main, args=(target,), daemon=True)
             self.all_fibers.append(target)
             target.thread.start()
         else:
@@ -2034,6 +2051,8 @@ def n_fiber_new(ip, recv, args, frame):
 
 def n_fiber_call(ip, recv, args, frame):
     fb = recv
+    if getattr(fb, "dead", False):
+        raise ModelUnsupported("call of a fiber that was on the call chain of an aborted run")
     if fb.state == "new":
         check_args(ip, args, fb.call_arity)
     elif len(args) > 1:
